@@ -476,6 +476,8 @@ def no_panic_config(ctx):
                 continue
             sites.append((x, b, bb, kind, detail))
     for (bb, kind, detail, ext) in panic_sites(f, m):
+        if m.origin(bb) != m.name:
+            continue  # code of a spliced-in callee: examined as that callee's own body (it is in the call-graph closure)
         if bb in pre_blocks and not (ext and kind == "panic"):
             sites.append(("main", m, bb, kind, detail))
     for (x, b, bb, kind, detail) in sites:
